@@ -3,6 +3,8 @@ import SLModel.Lemmas.Idb
 import SLModel.Lemmas.IdbQueue
 import SLModel.Lemmas.IdbProgram
 import SLModel.Lemmas.IdbRepaired
+import SLModel.Lemmas.IdbChain
+import SLModel.Lemmas.IdbResolved
 /-!
 # C27 — browser persistence survives a reload at any moment
 
@@ -15,8 +17,8 @@ and every moment of closing the page, the stored image reopens to the contents o
 that had started, and every commit whose promise resolved is included* — is the statement
 
 ```
-theorem close_any_time (cs : List Commit) (hwf : WfCommits cs) (ls : List PLabel) (s : PSt)
-    (h : pexec (initP cs false) ls = some s) : CloseOk cs s
+theorem close_any_time (cs : List Commit) (wf : WfRep cs) (hn : (cs.map (·.manifest)).Nodup)
+    (ls : List PLabel) (s : PSt) (h : pexec (initP cs false) ls = some s) : CloseOk cs s
 ```
 
 about the code as it exists (`initP cs false`: `blockOf`, `awaitComplete = false`).  It is
@@ -32,10 +34,13 @@ reopens to the previous commit) are proved below by `decide`.  What is proved in
   logs by the harness) no close image is partial, for every interleaving and close point;
 * `resolved_succeeded` — what `flush` really guarantees: a resolved receiver's path has a
   snapshot at least as new whose put request *succeeded* (durable only under `awaitComplete`);
-* `close_never_partial_repaired` — the repaired protocol (`blockRepaired`: the files a
-  manifest names are awaited before the manifest is scheduled; `awaitComplete`: waiters are
-  notified on transaction completion) never leaves a partial image, for every interleaving
-  and close point.
+* `close_any_time_repaired` (= `close_never_partial_repaired` + `recovered_started_repaired` +
+  `resolved_commit_present_repaired`) — the full statement for the repaired protocol
+  (`blockRepaired`: the files a manifest names are awaited before the manifest is scheduled;
+  `awaitComplete`: waiters are notified on transaction completion), for every interleaving
+  and close point;
+* `resolved_present_await_complete` — with `awaitComplete`, a resolved receiver's path is in the
+  store with a snapshot at least as new (the coalescing queue never lets an older snapshot win).
 -/
 namespace SL.Idb
 
@@ -293,6 +298,69 @@ theorem recovered_started_repaired (cs : List Commit) (wf : WfRep cs) (ls : List
         omega
       · cases hk
 
+/-- **… part 3: every block whose promise resolved is in the recovered commit.** -/
+theorem resolved_commit_present_repaired (cs : List Commit) (wf : WfRep cs)
+    (hn : (cs.map (·.manifest)).Nodup) (ls : List PLabel) (s : PSt)
+    (h : pexec (initP cs true) ls = some s) (n : Nat) (hres : n < s.resolvedBlocks) :
+    ∃ k, recover cs s.q.store = Rec.commit k ∧ n ≤ k := by
+  obtain ⟨inv, r⟩ := rinv_pexec wf hn (pinv_init cs) (rinv_init cs) h
+  obtain ⟨v, k, c, hv, hc, hm, hk⟩ := r.rp n hres
+  have hnb := close_never_partial_repaired cs wf ls s h
+  unfold recover at hnb ⊢
+  simp only [hv] at hnb ⊢
+  obtain ⟨k0, _, hf⟩ := findManifest_le v.data cs k c hc hm
+  obtain ⟨c0, hc0, hm0⟩ := findManifest_some v.data cs k0 hf
+  have hkk : k0 = k := idx_unique hn hc0 hc (hm0.trans hm.symm)
+  subst hkk
+  simp only [hf] at hnb ⊢
+  split
+  · exact ⟨k0, rfl, hk⟩
+  · rename_i hall
+    simp [hall] at hnb
+
+/-- what the property asks of a page state: the stored image reopens, to a commit that had
+started, which includes every commit whose promise has resolved -/
+def CloseOk (cs : List Commit) (s : PSt) : Prop :=
+  recover cs s.q.store ≠ Rec.broken ∧
+  (∀ k, recover cs s.q.store = Rec.commit k → k < s.started) ∧
+  (∀ n, n < s.resolvedBlocks → ∃ k, recover cs s.q.store = Rec.commit k ∧ n ≤ k)
+
+/-- **close_any_time for the repaired protocol** (segment files awaited before the manifest is
+scheduled; waiters notified on transaction completion): for every interleaving of the program,
+the persistence tasks and the browser's request/transaction events, and for every moment at
+which the page is closed, the stored image reopens to a commit that had started and that
+includes every commit whose promise had resolved — never a partial one. -/
+theorem close_any_time_repaired (cs : List Commit) (wf : WfRep cs) (hn : (cs.map (·.manifest)).Nodup)
+    (ls : List PLabel) (s : PSt) (h : pexec (initP cs true) ls = some s) : CloseOk cs s :=
+  ⟨close_never_partial_repaired cs wf ls s h, recovered_started_repaired cs wf ls s h,
+   resolved_commit_present_repaired cs wf hn ls s h⟩
+
+/-- the same statement is false for the code as it exists (both witnesses above) -/
+theorem close_any_time_false_for_current_code :
+    ¬ (∀ (ls : List PLabel) (s : PSt), pexec (initP witnessCommits false) ls = some s → CloseOk witnessCommits s) := by
+  intro hall
+  have h1 := close_any_time_neg
+  cases hp : pexec (initP witnessCommits false) witnessA with
+  | none => rw [hp] at h1; simp at h1
+  | some s =>
+    rw [hp] at h1
+    simp only [Option.map_some, Option.some.injEq, Prod.mk.injEq] at h1
+    exact (hall witnessA s hp).1 h1.1
+
+/-! ## the store holds the newest snapshot -/
+
+/-- **store_newest / resolved means stored (when waiters are notified on completion).**  In a
+run without `schedule_delete`, for every interleaving: once a receiver has resolved, the store
+holds a snapshot of its path at least as new as the one handed to that `schedule` call — the
+coalescing queue never lets an older snapshot win. -/
+theorem resolved_present_await_complete (ls : List Label) (hnd : NoDelLabels ls) (σ : St)
+    (h : exec { awaitComplete := true } ls = some σ) (w : Nat) (hw : w ∈ σ.resolved) :
+    ∃ p v', pathOf σ w = some p ∧ aget p σ.store = some v' ∧ w ≤ v'.seq := by
+  obtain ⟨_, c, n, sr⟩ := all_inv_exec hnd h (qinv_init true) (cinv_init true) (nodel_init true) rfl
+  obtain ⟨p, v, hp, hv, hwv⟩ := resolved_durable_await_complete ls σ h w hw
+  obtain ⟨v', hv', hvv'⟩ := store_newest c n sr hv
+  exact ⟨p, v', hp, hv', by omega⟩
+
 /-- non-vacuity of the repaired theorems: a complete run of the repaired protocol on the
 witness commits ends with commit 1 recovered and both blocks resolved -/
 example :
@@ -305,5 +373,7 @@ example :
 
 example : WfRep witnessCommits := by
   refine ⟨by decide, by decide, by decide⟩
+
+example : (witnessCommits.map (·.manifest)).Nodup := by decide
 
 end SL.Idb
